@@ -272,9 +272,10 @@ impl Router {
                     error!("no-connection id {} is already gone", id);
                 }
             }
-            Event::Shadow(request) => {
-                retrieve_shadow(&mut self.datalog, &mut self.obufs[id], request)
-            }
+            Event::Shadow(request) => match self.obufs.get_mut(id) {
+                Some(outgoing) => retrieve_shadow(&mut self.datalog, outgoing, request),
+                None => error!("no-connection id {} is already gone", id),
+            },
             Event::SendAlerts => {
                 self.send_alerts();
             }
